@@ -465,9 +465,15 @@ func genC12Case(r *Rng, tier string) (*c12Case, []string, bool) {
 		if nch > 0 {
 			tags = append(tags, "tempo-changes")
 		}
+		var tempoTicks []int
 		for ; nch > 0; nch-- {
 			i := r.Intn(ntr)
 			at := r.Intn(maxTick + 1)
+			if len(tempoTicks) > 0 && r.Chance(1, 3) {
+				at = tempoTicks[r.Intn(len(tempoTicks))] // several tempo changes on one tick: the last one counts
+				tags = append(tags, "tempo-changes-on-one-tick")
+			}
+			tempoTicks = append(tempoTicks, at)
 			pos := sort.Search(len(items[i]), func(j int) bool { return items[i][j].tick > at })
 			if r.Bool() {
 				pos = sort.Search(len(items[i]), func(j int) bool { return items[i][j].tick >= at })
